@@ -9,10 +9,17 @@
    The theorems are about Lifecycle.Model.step, the executable model of the guards of
    kmip/services/server/engine.py, tied to the code on every run by harness/c04.py (Lifecycle.Cases.check_hcase).
    Proofs: Lifecycle/LifecycleProofs.v.  Vocabulary (transition, property_move, wf, gate, usable): Lifecycle/Spec.v. *)
-From PK Require Import Lifecycle.Model Lifecycle.Spec Lifecycle.LifecycleProofs.
+From PK Require Import Lifecycle.Model Lifecycle.Spec Lifecycle.LifecycleProofs Lifecycle.GuardTable Lifecycle.GuardTie.
+From PKGen Require LifecycleGuards.
 From Coq Require Import ZArith List Bool.
 Import ListNotations.
 Open Scope Z_scope.
+
+(* ---------------------------------------------------------------- 0. tie T *)
+(* the guard skeleton extracted from engine.py on this run is the one the model was written against *)
+Theorem guards_as_modelled : LifecycleGuards.guards = GuardTable.expected_guards.
+Proof. exact GuardTie.guards_as_modelled. Qed.
+Print Assumptions guards_as_modelled.
 
 (* ---------------------------------------------------------------- 1. allowed transitions *)
 (* exactly what one step does to one stored object, for ANY store: type and mask are untouched and the State
